@@ -617,12 +617,23 @@ func nestedReaderCase(out *bufio.Writer, k Kind, rep bool, field int32, data []b
 		}
 		// follow-up at the outer level: field 7 is a varint, a fixed32 reader must fail and stop the decoder,
 		// whatever happened inside the callback (errors are sticky, later failures are not ignored)
-		var fx uint32
-		dec.Fixed32(7, &fx)
+		// (inputs of odd length: the public Fail() a custom type would call)
+		if len(outer)%2 == 0 {
+			var fx uint32
+			dec.Fixed32(7, &fx)
+		} else {
+			dec.Fail(7, "custom failure")
+		}
 		pf2, _, rem2 := dec.VerifState()
 		es2 := "-"
 		if ef, em, ok := dec.VerifErrField(); ok {
 			es2 = fmt.Sprintf("%d:%s", ef, errClassOf(em))
+			// the public accessor reports the same error, with the field number in decimal
+			if pe := dec.Err(); pe == nil || pe.Error() != fmt.Sprintf("failed while parsing %d: %s", ef, em) {
+				es2 += ":Err()-differs"
+			}
+		} else if dec.Err() != nil {
+			es2 = "-:Err()-set"
 		}
 		res = fmt.Sprintf("pf=%d rem=%d err=%s val=%s pf2=%d rem2=%d err2=%s", pf, rem, es, valsString(cur), pf2, rem2, es2)
 	}()
